@@ -9,6 +9,7 @@ import (
 	"github.com/llir/llvm/ir"
 	"github.com/llir/llvm/ir/constant"
 	"github.com/llir/llvm/ir/enum"
+	"github.com/llir/llvm/ir/metadata"
 	"github.com/llir/llvm/ir/types"
 	"github.com/llir/llvm/ir/value"
 
@@ -42,10 +43,11 @@ type srcEnt struct {
 type vector struct {
 	Kind string `json:"kind"` // func | mod
 	// func
-	F    shape  `json:"f"`
-	Form string `json:"form"` // spelling of the call-like values: short long longva bitcast asm tail addrspace
+	F     shape  `json:"f"`
+	Form  string `json:"form"`  // spelling of the call-like values: short long longva bitcast asm tail addrspace
 	Names string `json:"names"` // naming of the named definitions: alpha (p3, b4, ..) | numeral ("0", "1", "00", "42", ..)
-	Ids  []int  `json:"ids"` // LLVM numbering in flat order: params, then per block label, insts, term; -1 = none
+	Ids   []int  `json:"ids"`   // LLVM numbering in flat order: params, then per block label, insts, term; -1 = none
+	Ins   int    `json:"ins"`   // the number an unnamed value inserted as first instruction of the entry block takes (InsertFirst)
 	// mod
 	Src     []srcEnt `json:"src"`
 	Textual []int    `json:"textual"` // number LLVM reads in the input text, per definition
@@ -109,17 +111,18 @@ type pblock struct {
 }
 
 type plan struct {
-	fname    string
-	params   []*item
-	blocks   []*pblock // shape blocks, then scaffolding: handlers, lpad, exit, uses
-	nshape   int
-	flat     []*item // walk order of AssignIDs: params, then per block label, insts, term
-	lpad     *pblock
-	exit     *pblock
-	uses     *pblock
-	describe string
-	numeral  bool    // named definitions are called "0", "1", "00", ...
-	baBlocks []*pblock // blocks whose address is taken by the companion globals and the companion function
+	fname        string
+	params       []*item
+	blocks       []*pblock // shape blocks, then scaffolding: handlers, lpad, exit, uses
+	nshape       int
+	flat         []*item // walk order of AssignIDs: params, then per block label, insts, term
+	lpad         *pblock
+	exit         *pblock
+	uses         *pblock
+	describe     string
+	numeral      bool      // named definitions are called "0", "1", "00", ...
+	tokLo, tokHi int       // token range of the function itself in the reference chunk (cached by shiftTokens)
+	baBlocks     []*pblock // blocks whose address is taken by the companion globals and the companion function
 }
 
 func (it *item) ident() string {
@@ -449,6 +452,9 @@ func (pl *plan) render(mode int) string {
 	for j, b := range pl.baBlocks {
 		fmt.Fprintf(&sb, "@ba.%s.%d = global i8* blockaddress(@%s, %s)\n\n", pl.fname, j, pl.fname, b.label.ident())
 	}
+	// the same addresses inside metadata nodes listed by a named metadata definition (a site the translator reaches
+	// in another phase than initialisers and function bodies); they precede the function for the same reason
+	sb.WriteString(pl.mdText())
 	sb.WriteString("define void @" + pl.fname + "(")
 	allExplicit := true
 	for i, p := range pl.params {
@@ -690,6 +696,15 @@ func (pl *plan) build(e *env) (*ir.Func, objects) {
 		e.m.NewGlobalDef(fmt.Sprintf("ba.%s.%d", pl.fname, j), constant.NewBlockAddress(f, blocks[b]))
 	}
 	ub.NewRet(nil)
+	if len(pl.baBlocks) > 0 {
+		nmd := &metadata.NamedDef{Name: "ba." + pl.fname}
+		for j, b := range pl.baBlocks {
+			t := &metadata.Tuple{MetadataID: metadata.MetadataID(pl.mdBase() + j), Fields: []metadata.Field{constant.NewBlockAddress(f, blocks[b])}}
+			e.m.MetadataDefs = append(e.m.MetadataDefs, t)
+			nmd.Nodes = append(nmd.Nodes, t)
+		}
+		e.m.NamedMetadataDefs[nmd.Name] = nmd
+	}
 	return f, obj
 }
 
@@ -704,6 +719,18 @@ func (pl *plan) checkCompanions(m *ir.Module, f *ir.Func, obj objects) string {
 		for j, b := range pl.baBlocks {
 			if g.GlobalName == fmt.Sprintf("ba.%s.%d", pl.fname, j) && !isBA(g.Init, b) {
 				return fmt.Sprintf("initialiser of @%s is not the address of block %s", g.GlobalName, b.label.ident())
+			}
+		}
+	}
+	if len(pl.baBlocks) > 0 {
+		nmd := m.NamedMetadataDefs["ba."+pl.fname]
+		if nmd == nil || len(nmd.Nodes) != len(pl.baBlocks) {
+			return "named metadata !ba." + pl.fname + " missing or of another length"
+		}
+		for j, b := range pl.baBlocks {
+			t, ok := nmd.Nodes[j].(*metadata.Tuple)
+			if !ok || len(t.Fields) != 1 || !isBA(t.Fields[0], b) {
+				return fmt.Sprintf("metadata node %d of !ba.%s is not the address of block %s (a block address in a metadata node)", j, pl.fname, b.label.ident())
 			}
 		}
 	}
@@ -725,6 +752,66 @@ func (pl *plan) checkCompanions(m *ir.Module, f *ir.Func, obj objects) string {
 	return "companion function missing"
 }
 
+// mdBase is the ID of the first metadata node of the plan (IDs are module-wide: 32 per function).
+func (pl *plan) mdBase() int {
+	n, err := strconv.Atoi(strings.TrimPrefix(pl.fname, "f"))
+	if err != nil {
+		mbt.Infra("plan function name %q carries no index", pl.fname)
+	}
+	return 32 * n
+}
+
+// mdText renders the metadata companions: one node per block address and the named definition listing them.
+func (pl *plan) mdText() string {
+	if len(pl.baBlocks) == 0 {
+		return ""
+	}
+	var sb strings.Builder
+	var ids []string
+	for j, b := range pl.baBlocks {
+		fmt.Fprintf(&sb, "!%d = !{i8* blockaddress(@%s, %s)}\n", pl.mdBase()+j, pl.fname, b.label.ident())
+		ids = append(ids, "!"+strconv.Itoa(pl.mdBase()+j))
+	}
+	fmt.Fprintf(&sb, "!ba.%s = !{%s}\n\n", pl.fname, strings.Join(ids, ", "))
+	return sb.String()
+}
+
+// mdLines returns the printed metadata nodes of the plan (by ID).
+func (pl *plan) mdLines(text string) string {
+	if len(pl.baBlocks) == 0 {
+		return ""
+	}
+	base := pl.mdBase()
+	var sb strings.Builder
+	for start := 0; start < len(text); {
+		end := strings.IndexByte(text[start:], '\n')
+		if end < 0 {
+			end = len(text)
+		} else {
+			end += start
+		}
+		// "!<id> = ": a numbered node of this plan
+		if line := text[start:end]; len(line) > 1 && line[0] == '!' && line[1] >= '0' && line[1] <= '9' {
+			k := 1
+			for k < len(line) && line[k] >= '0' && line[k] <= '9' {
+				k++
+			}
+			if id, err := strconv.Atoi(line[1:k]); err == nil && id >= base && id < base+len(pl.baBlocks) && strings.HasPrefix(line[k:], " = ") {
+				sb.WriteString(line + "\n")
+			}
+		}
+		start = end + 1
+	}
+	return sb.String()
+}
+
+var reBAMetadata = regexp.MustCompile(`(?m)^(!ba\.[\w.]+ = .*|!\d+ = !\{i8\* blockaddress\(.*)\n`)
+
+// withoutBAMetadata removes the metadata companions from printed text that is given to llvm-as: the printer (like
+// llvm-dis) lists metadata after the functions, and LLVM cannot read the address of a NUMBERED label after the
+// function has been defined -- a limitation of the textual format, not a statement about the numbering.
+func withoutBAMetadata(text string) string { return reBAMetadata.ReplaceAllString(text, "") }
+
 // chunk collects everything printed text says about a plan: the companion function, the
 // function itself and the companion globals.
 func (pl *plan) chunk(text string, per map[string]string) string {
@@ -732,6 +819,7 @@ func (pl *plan) chunk(text string, per map[string]string) string {
 	sb.WriteString(per["u."+pl.fname])
 	sb.WriteString(per[pl.fname])
 	sb.WriteString(pl.globalLines(text))
+	sb.WriteString(pl.mdLines(text))
 	return sb.String()
 }
 
@@ -901,4 +989,69 @@ func firstDiff(a, b []string) int {
 		return n
 	}
 	return -1
+}
+
+// --- parse -> edit -> print ------------------------------------------------------
+
+const insertedConst = 424242
+
+var reBareNum = regexp.MustCompile(`^%(\d+)$`)
+
+// shiftTokens applies the shift law of Numbering.tla (InsertShifts) to the reference token stream of a plan's chunk: an
+// unnamed value that takes number p was inserted into the function; every local number >= p OF THAT FUNCTION grows by
+// one -- all bare numbers inside the function (definitions, uses, labels) and, outside it, the block number of every
+// blockaddress(@f, %N) (the token after @f); the companion function's own numbers, names and global identifiers stay.
+func (pl *plan) shiftTokens(ref []string, p int) []string {
+	if pl.tokHi == 0 {
+		refText := pl.render(modeExplicit)
+		per := splitFuncs(refText)
+		pl.tokLo = len(tokens(per["u."+pl.fname]))
+		pl.tokHi = pl.tokLo + len(tokens(per[pl.fname]))
+	}
+	lo, hi := pl.tokLo, pl.tokHi
+	out := make([]string, len(ref))
+	for i, t := range ref {
+		out[i] = t
+		inside := i >= lo && i < hi
+		if !inside && (i == 0 || ref[i-1] != "@"+pl.fname) {
+			continue
+		}
+		if m := reBareNum.FindStringSubmatch(t); m != nil {
+			if n, _ := strconv.Atoi(m[1]); n >= p {
+				out[i] = "%" + strconv.Itoa(n+1)
+			}
+		}
+	}
+	return out
+}
+
+// cutInserted removes the line of the inserted instruction from the printed function and returns its result token.
+func cutInserted(fn string) (rest, def string, ok bool) {
+	marker := fmt.Sprintf("add i32 %d, %d", insertedConst, insertedConst)
+	lines := strings.Split(fn, "\n")
+	for i, l := range lines {
+		if strings.Contains(l, marker) {
+			if ts := tokens(l); len(ts) == 1 {
+				def = ts[0]
+			}
+			return strings.Join(append(lines[:i:i], lines[i+1:]...), "\n"), def, true
+		}
+	}
+	return fn, "", false
+}
+
+// editRegion names the part of a plan's chunk that holds token d of the reference stream.
+func (pl *plan) editRegion(d int) string {
+	refText := pl.render(modeExplicit)
+	per := splitFuncs(refText)
+	nu, nf, ng := len(tokens(per["u."+pl.fname])), len(tokens(per[pl.fname])), len(tokens(pl.globalLines(refText)))
+	switch {
+	case d < nu:
+		return "blockaddress in an earlier function"
+	case d < nu+nf:
+		return "the edited function"
+	case d < nu+nf+ng:
+		return "blockaddress in a global initialiser"
+	}
+	return "blockaddress in a metadata node"
 }
